@@ -56,8 +56,23 @@ func (w *world) afterOp(c *simChan) {
 	w.checkChannel(c, level)
 }
 
+func (w *world) saturated(c *simChan) bool {
+	return c.log != nil && c.log.channelEntry != nil && c.log.idempotencyMembership.primaryAdds >= idempotencyMembershipPrimaryCapacity
+}
+
 func (w *world) singleOp(c *simChan) {
 	tp := w.r.Tape
+	if w.c.Saturate && !w.saturated(c) && tp.Intn(4) != 0 {
+		// fill phase: bulk appends of distinct keys
+		w.forceBulk = true
+		if c.fl == flTyped {
+			w.opTypedAppend(c)
+		} else {
+			w.opCompatAppend(c)
+		}
+		w.forceBulk = false
+		return
+	}
 	switch c.fl {
 	case flTyped:
 		switch tp.Weighted([]int{12, 3, 3, 3, 2}) {
@@ -207,9 +222,10 @@ func (w *world) opTypedAppend(c *simChan) {
 	st := c.st()
 	mode := AppendMode(tp.Weighted([]int{5, 2, 2}))
 	n := tp.Weighted([]int{1, 6, 4, 2, 1, 1})
-	if w.c.Saturate && tp.Intn(2) == 0 {
+	if w.forceBulk {
 		n = 60 + tp.Intn(40)
 		w.bulk = true
+		mode = AppendMode(tp.Intn(2))
 	}
 	rows := w.genRows(c, st, n, mode, false, true)
 	w.bulk = false
@@ -264,7 +280,7 @@ func (w *world) opTypedAppend(c *simChan) {
 }
 
 func (w *world) saturationProbe(c *simChan) {
-	if c.log != nil && c.log.channelEntry != nil && c.log.idempotencyMembership.primaryAdds >= idempotencyMembershipPrimaryCapacity {
+	if w.saturated(c) {
 		w.r.Probe("filter.saturated")
 	}
 }
@@ -575,9 +591,10 @@ func (w *world) opCompatAppend(c *simChan) {
 	st := c.st()
 	mode := AppendMode(tp.Weighted([]int{5, 2, 2}))
 	n := tp.Weighted([]int{1, 6, 4, 2, 1})
-	if w.c.Saturate && tp.Intn(2) == 0 {
+	if w.forceBulk {
 		n = 60 + tp.Intn(40)
 		w.bulk = true
+		mode = AppendMode(tp.Intn(2))
 	}
 	rows := w.genRows(c, st, n, mode, true, true)
 	w.bulk = false
@@ -773,6 +790,44 @@ func (w *world) opCompatApply(c *simChan) {
 	}
 	w.r.Logf("  -> leo=%d err=%v", leo, err)
 	w.finishApply(p, leo, err, "compat.ApplyFetch")
+}
+
+// opBatchApply applies follower records to several channels with one
+// StoreApplyFetchTrustedBatch call (one commit request).
+func (w *world) opBatchApply(chans []*simChan) {
+	w.r.Logf("op %d multi-channel StoreApplyFetchTrustedBatch over %d channels", w.step, len(chans))
+	w.avoidIDs = map[uint64]bool{}
+	defer func() { w.avoidIDs = nil }()
+	plans := make([]*applyPlan, len(chans))
+	items := make([]ApplyFetchBatchItem, len(chans))
+	for i, c := range chans {
+		p := w.planApply(c, false, false)
+		for _, r := range p.rows {
+			w.avoidIDs[r.ID] = true
+		}
+		w.r.Logf("  item %s rows=%v cp=%v cphw=%v expect=%s/%s", c.key, p.rows, p.req.Checkpoint, ptrU64(p.req.CheckpointHW), kindName[p.v.kind], kindName[p.other])
+		plans[i] = p
+		items[i] = ApplyFetchBatchItem{Store: c.store, Request: p.req}
+	}
+	for _, p := range plans {
+		if p.ok() && p.writes {
+			w.issue(p.c, p.ns)
+		}
+	}
+	results := StoreApplyFetchTrustedBatch(w.ctx, items)
+	for i, p := range plans {
+		w.r.Logf("  -> %s leo=%d err=%v", p.c.key, results[i].LEO, results[i].Err)
+		w.finishApply(p, results[i].LEO, results[i].Err, "batch.apply")
+		if w.stop() {
+			return
+		}
+	}
+	w.r.Probe("op.batch.apply_multi_channel")
+	if !w.c.Crash {
+		for _, c := range chans {
+			w.checkChannel(c, 0)
+		}
+	}
 }
 
 func ptrU64(p *uint64) string {
@@ -1549,6 +1604,30 @@ func (w *world) groupOp() {
 		pool = append(pool[:i], pool[i+1:]...)
 	}
 	sort.Slice(pool, func(i, j int) bool { return pool[i].idx < pool[j].idx })
+	switch tp.Weighted([]int{4, 1, 1}) {
+	case 1:
+		// one StoreAppendBatch call carrying every chosen channel
+		w.r.Logf("op %d multi-channel StoreAppendBatch over %d channels", w.step, len(pool))
+		w.opBatchAppend(pool)
+		w.r.Probe("op.batch.multi_channel")
+		if !w.c.Crash {
+			for _, c := range pool {
+				w.checkChannel(c, 0)
+			}
+		}
+		return
+	case 2:
+		var compat []*simChan
+		for _, c := range pool {
+			if c.fl == flCompat {
+				compat = append(compat, c)
+			}
+		}
+		if len(compat) >= 2 {
+			w.opBatchApply(compat)
+			return
+		}
+	}
 	w.r.Logf("op %d group of %d clients", w.step, len(pool))
 	type client struct {
 		c     *simChan
